@@ -9,8 +9,10 @@ import (
 	"io"
 	"log/slog"
 	"math"
+	"math/rand"
 	"os"
 	"path/filepath"
+	"strings"
 	"testing"
 
 	"github.com/thushan/olla/internal/adapter/registry/profile"
@@ -55,6 +57,9 @@ func verifTailValue(cls string) string {
 		return "[1,2]"
 	case "string":
 		return `"12ab"`
+	}
+	if strings.HasPrefix(cls, "mut") {
+		return "1234" + cls[3:] // an ordinary number; the whole tail is mutated afterwards
 	}
 	return "1"
 }
@@ -137,6 +142,32 @@ func TestVerif_MetricsTails(t *testing.T) {
 			body += fmt.Sprintf("%q:%s", k, string(val))
 		}
 		body += "}"
+		if strings.HasPrefix(sc.Value, "mut") {
+			// a well-formed tail (every number ordinary) with 1..4 byte-level accidents, seeded per scenario
+			mr := rand.New(rand.NewSource(zzverif.Seed()*1000003 + int64(sn)))
+			b := []byte(strings.ReplaceAll(body, "\"mut", "\"1"))
+			special := []string{"\"", "{", "}", "[", "]", ",", ":", "\\", "\x00", "\xff", "null", "1e999", "-", "e", "."}
+			for n := 1 + mr.Intn(4); n > 0 && len(b) > 8; n-- {
+				i := mr.Intn(len(b))
+				j := i + mr.Intn(len(b)-i)
+				switch mr.Intn(5) {
+				case 0:
+					b[i] ^= byte(1 << uint(mr.Intn(8)))
+				case 1:
+					b = append(append([]byte{}, b[:i]...), b[j:]...)
+				case 2:
+					if j-i > 100 {
+						j = i + 100
+					}
+					b = append(append(append([]byte{}, b[:j]...), b[i:j]...), b[j:]...)
+				case 3:
+					b = append(append(append([]byte{}, b[:i]...), special[mr.Intn(len(special))]...), b[i:]...)
+				case 4:
+					b = b[:i]
+				}
+			}
+			body = string(b)
+		}
 		tr.Emit("Reset", "scn", sn, "kind", "metrics", "known", []string{"m1", "m2"})
 		func() {
 			defer func() {
